@@ -24,6 +24,7 @@ structure OutIn where
   hasSide : Bool              -- dec_API.c:318-323
   stereoToMono : Bool         -- dec_API.c:176-177
   lost : Bool                 -- lostFlag == FLAG_PACKET_LOST: the predictor is taken from the state (dec_API.c:294-298)
+  stereoStart : Bool          -- first stereo call after mono (API or internal): stereo state cleared (dec_API.c:212-216)
   deriving Repr
 
 def OutIn.cfg (x : OutIn) : Cfg :=
@@ -37,57 +38,73 @@ def rateId (hz : Int) : Int :=
 def inputDelay (fsKHz apiHz : Int) : Int :=
   SilkSynth.delayMatrixDec.getD (rateId (fsKHz * 1000) * SilkSynth.delayMatrixDecCols + rateId apiHz).toNat 0
 
-/-- Top level of `silk_resampler( S, out = samplesOut2_tmp, in = &tmp[off], inLen )` (resampler.c:176-215) with the
-    kernel contracts; second component: one of the two `celt_assert`s fired. -/
-def resamplerAccesses (dly : Arr) (fsIn fsOut delay : Int) (off inLen : Int) : List Acc × Bool :=
+/-- Top level of `silk_resampler( S, out = samplesOut2_tmp, in = &tmp[1], inLen )` (resampler.c:176-215) with the
+    kernel contracts; `tmp` is the row of the frame buffer the input points into; second component: one of the
+    two `celt_assert`s fired. -/
+def resamplerAccesses (tmp dly : Arr) (fsIn fsOut delay : Int) (inLen : Int) : List Acc × Bool :=
   if inLen < fsIn ∨ delay > fsIn then ([], true)                                              -- :186-188
   else
     let nS := fsIn - delay                                                                     -- :190
-    (rd .tmpStore off (off + nS) ++ wrt dly delay (delay + nS) ++                              -- :193
+    (rd tmp 1 (1 + nS) ++ wrt dly delay (delay + nS) ++                                        -- :193
       rd dly 0 fsIn ++ wrt .out2 0 fsOut ++                                                    -- :197/201/205/209 first call
-      rd .tmpStore (off + nS) (off + nS + (inLen - fsIn)) ++
+      rd tmp (1 + nS) (1 + nS + (inLen - fsIn)) ++
       wrt .out2 fsOut (fsOut + (inLen - fsIn) * fsOut / fsIn) ++                               -- second call
-      rd .tmpStore (off + inLen - delay) (off + inLen) ++ wrt dly 0 delay, false)              -- :213
+      rd tmp (1 + inLen - delay) (1 + inLen) ++ wrt dly 0 delay, false)                        -- :213
 
 /-- silk_stereo_MS_to_LR( state, x1 = tmp[0], x2 = tmp[1], pred, fs_kHz, frame_length ). -/
 def msToLrAccesses (c : Cfg) : List Acc :=
   let F := c.frameLen
-  let b2 := F + 2                                    -- offset of samplesOut1_tmp[ 1 ] in the storage
   let n8 := SilkSynth.stereoInterpLenMs * c.fsKHz
-  rd .sMid 0 2 ++ wrt .tmpStore 0 2 ++ rd .sSide 0 2 ++ wrt .tmpStore b2 (b2 + 2) ++             -- :49-50
-    rd .tmpStore F (F + 2) ++ wrt .sMid 0 2 ++ rd .tmpStore (b2 + F) (b2 + F + 2) ++ wrt .sSide 0 2 ++  -- :51-52
+  rd .sMid 0 2 ++ wrt .tmp0 0 2 ++ rd .sSide 0 2 ++ wrt .tmp1 0 2 ++                             -- :49-50
+    rd .tmp0 F (F + 2) ++ wrt .sMid 0 2 ++ rd .tmp1 F (F + 2) ++ wrt .sSide 0 2 ++               -- :51-52
     rd .predPrev 0 2 ++ rd .msPred 0 2 ++                                                        -- :55-59
-    rd .tmpStore 0 (n8 + 2) ++ rd .tmpStore (b2 + 1) (b2 + n8 + 1) ++ wrt .tmpStore (b2 + 1) (b2 + n8 + 1) ++   -- :60-67
+    rd .tmp0 0 (n8 + 2) ++ rd .tmp1 1 (n8 + 1) ++ wrt .tmp1 1 (n8 + 1) ++                        -- :60-67
     rd .msPred 0 2 ++
-    rd .tmpStore n8 (F + 2) ++ rd .tmpStore (b2 + n8 + 1) (b2 + F + 1) ++ wrt .tmpStore (b2 + n8 + 1) (b2 + F + 1) ++  -- :70-75
+    rd .tmp0 n8 (F + 2) ++ rd .tmp1 (n8 + 1) (F + 1) ++ wrt .tmp1 (n8 + 1) (F + 1) ++            -- :70-75
     wrt .predPrev 0 2 ++ rd .msPred 0 2 ++                                                       -- :76-77
-    rd .tmpStore 1 (F + 1) ++ rd .tmpStore (b2 + 1) (b2 + F + 1) ++
-    wrt .tmpStore 1 (F + 1) ++ wrt .tmpStore (b2 + 1) (b2 + F + 1)                               -- :80-85
+    rd .tmp0 1 (F + 1) ++ rd .tmp1 1 (F + 1) ++ wrt .tmp0 1 (F + 1) ++ wrt .tmp1 1 (F + 1)       -- :80-85
+
+/-- Accesses of the output stage by phase (the tie compares per phase). -/
+structure OutAcc where
+  top : List Acc        -- silk_Decode itself: predictor fallback, memset, buffering, interleaving
+  dec : List Acc        -- silk_decode_frame (as the write of its output)
+  ms : List Acc         -- silk_stereo_MS_to_LR
+  res0 : List Acc       -- silk_resampler on channel_state[ 0 ].resampler_state
+  res1 : List Acc       -- silk_resampler on channel_state[ 1 ].resampler_state
+  aborted : Bool
+  deriving Repr
+
+def OutAcc.all (a : OutAcc) : List Acc := a.top ++ a.dec ++ a.ms ++ a.res0 ++ a.res1
 
 /-- The output stage for one call of silk_Decode. -/
-def outAccesses (x : OutIn) : List Acc × Bool :=
+def outAccesses (x : OutIn) : OutAcc :=
   let c := x.cfg
   let F := c.frameLen
   let N := F * x.apiHz / (x.fsKHz * 1000)                                                        -- dec_API.c:376
   let fsOut := x.apiHz / 1000                                                                    -- resampler.c:103
   let delay := inputDelay x.fsKHz x.apiHz
-  let pp := if x.nChInt = 2 ∧ x.lost then rd .predPrev 0 2 ++ wrt .msPred 0 2 else []            -- :294-298
-  let dec0 := pp ++ wrt .tmpStore 2 (2 + F)                                                      -- :347 silk_decode_frame, n = 0
-  let dec1 := if x.nChInt = 2 then wrt .tmpStore (F + 2 + 2) (F + 2 + 2 + F) else []             -- :347 or :356 memset, n = 1
-  let st :=
-    if x.nChAPI = 2 ∧ x.nChInt = 2 then msToLrAccesses c                                         -- :363
-    else rd .sMid 0 2 ++ wrt .tmpStore 0 2 ++ rd .tmpStore F (F + 2) ++ wrt .sMid 0 2            -- :366-367
-  let r0 := resamplerAccesses .delayBuf0 x.fsKHz fsOut delay 1 F                                  -- :385, n = 0
+  let stereo := decide (x.nChAPI = 2 ∧ x.nChInt = 2)
+  let pp := (if x.stereoStart then wrt .predPrev 0 2 ++ wrt .sSide 0 2 else []) ++                -- :212-216
+    (if x.nChInt = 2 ∧ x.lost then rd .predPrev 0 2 ++ wrt .msPred 0 2 else [])                  -- :294-298
+  let dec0 := wrt .tmp0 2 (2 + F)                                                                -- :347 silk_decode_frame, n = 0
+  let dec1 := if x.nChInt = 2 ∧ x.hasSide then wrt .tmp1 2 (2 + F) else []                       -- :347, n = 1
+  let zero1 := if x.nChInt = 2 ∧ ¬ x.hasSide then wrt .tmp1 2 (2 + F) else []                    -- :356 memset
+  let buf := if stereo then [] else rd .sMid 0 2 ++ wrt .tmp0 0 2 ++ rd .tmp0 F (F + 2) ++ wrt .sMid 0 2   -- :366-367
+  let ms := if stereo then msToLrAccesses c else []                                              -- :363
+  let r0 := resamplerAccesses .tmp0 .delayBuf0 x.fsKHz fsOut delay F                              -- :385, n = 0
   let il0 := rd .out2 0 N ++ (if x.nChAPI = 2 then wrt .samplesOut 0 (2 * N - 1) else wrt .samplesOut 0 N)   -- :388-396
-  if r0.2 then (dec0 ++ dec1 ++ st ++ r0.1, true)
-  else if x.nChAPI = 2 ∧ x.nChInt = 2 then
-    let r1 := resamplerAccesses .delayBuf1 x.fsKHz fsOut delay (F + 2 + 1) F                      -- :385, n = 1
-    (dec0 ++ dec1 ++ st ++ r0.1 ++ il0 ++ r1.1 ++ (if r1.2 then [] else rd .out2 0 N ++ wrt .samplesOut 1 (2 * N)), r1.2)
+  if r0.2 then ⟨pp ++ zero1 ++ buf, dec0 ++ dec1, ms, r0.1, [], true⟩
+  else if stereo then
+    let r1 := resamplerAccesses .tmp1 .delayBuf1 x.fsKHz fsOut delay F                            -- :385, n = 1
+    ⟨pp ++ zero1 ++ buf ++ il0 ++ (if r1.2 then [] else rd .out2 0 N ++ wrt .samplesOut 1 (2 * N)), dec0 ++ dec1, ms,
+     r0.1, r1.1, r1.2⟩
   else if x.nChAPI = 2 ∧ x.nChInt = 1 then
     if x.stereoToMono then
-      let r1 := resamplerAccesses .delayBuf1 x.fsKHz fsOut delay 1 F                              -- :404
-      (dec0 ++ dec1 ++ st ++ r0.1 ++ il0 ++ r1.1 ++ (if r1.2 then [] else rd .out2 0 N ++ wrt .samplesOut 1 (2 * N)), r1.2)
-    else (dec0 ++ dec1 ++ st ++ r0.1 ++ il0 ++ rd .samplesOut 0 (2 * N - 1) ++ wrt .samplesOut 1 (2 * N), false)   -- :410-412
-  else (dec0 ++ dec1 ++ st ++ r0.1 ++ il0, false)
+      let r1 := resamplerAccesses .tmp0 .delayBuf1 x.fsKHz fsOut delay F                          -- :404
+      ⟨pp ++ zero1 ++ buf ++ il0 ++ (if r1.2 then [] else rd .out2 0 N ++ wrt .samplesOut 1 (2 * N)), dec0 ++ dec1, ms,
+       r0.1, r1.1, r1.2⟩
+    else ⟨pp ++ zero1 ++ buf ++ il0 ++ rd .samplesOut 0 (2 * N - 1) ++ wrt .samplesOut 1 (2 * N), dec0 ++ dec1, ms,
+          r0.1, [], false⟩                                                                        -- :410-412
+  else ⟨pp ++ zero1 ++ buf ++ il0, dec0 ++ dec1, ms, r0.1, [], false⟩
 
 end Opus.SilkSynthIdx
